@@ -28,11 +28,19 @@ def numba_cache_for_tree():
     os.environ["VERIF_NUMBA_FRESH"] = "0" if os.path.isdir(d) and len(os.listdir(d)) > 3 else "1"
     if not os.path.isdir(d):
         import shutil
+        # keep the most recent trees (several trees may be under evaluation at the same time: tools/eval_* with VERIF_REPO) and
+        # never remove a directory that was used in the last two hours
+        import time
         olds = sorted((os.path.join(base, x) for x in os.listdir(base)), key=os.path.getmtime)
-        for o in olds[:-1]:
-            shutil.rmtree(o, ignore_errors=True)
+        for o in olds[:-6]:
+            if time.time() - os.path.getmtime(o) > 7200:
+                shutil.rmtree(o, ignore_errors=True)
         os.makedirs(d, exist_ok=True)
     os.environ["NUMBA_CACHE_DIR"] = d
+    try:
+        os.utime(d, None)
+    except OSError:
+        pass
     # TidalPy copies its default configuration (defaultc.py) and the shipped world configurations (WorldPack.zip) into the user's
     # data directory on first use and reads THOSE copies ever after: without a fresh data directory per tree a change to the defaults
     # or to a shipped world would never reach the code under test (seen: a repaired default kept failing). platformdirs honours
@@ -42,10 +50,16 @@ def numba_cache_for_tree():
     xd = os.path.join(xbase, h.hexdigest()[:16])
     if not os.path.isdir(xd):
         import shutil
-        for o in sorted((os.path.join(xbase, x) for x in os.listdir(xbase)), key=os.path.getmtime)[:-1]:
-            shutil.rmtree(o, ignore_errors=True)
+        import time
+        for o in sorted((os.path.join(xbase, x) for x in os.listdir(xbase)), key=os.path.getmtime)[:-6]:
+            if time.time() - os.path.getmtime(o) > 7200:
+                shutil.rmtree(o, ignore_errors=True)
         os.makedirs(xd, exist_ok=True)
     os.environ["XDG_DATA_HOME"] = xd
+    try:
+        os.utime(xd, None)
+    except OSError:
+        pass
     return d
 
 
